@@ -20,7 +20,7 @@ RULE = (
     "translation units derived from C99 Annex A (+ documented C11 productions) under the typedef-name rule by the "
     "syntactic generator of C02-C05; if pycparser rejects one, gcc is consulted: a syntax-family diagnostic means the "
     "generator is wrong (harness error), otherwise it is a violation; 2 % of accepted units are sent to gcc to measure "
-    "generator soundness. Corner catalogue: 131 valid snippets, each checked against gcc at start. Non-trivial: the program "
+    "generator soundness. Exhaustive: every expression tree with 2 operator nodes (54 kinds) and with 3 over 21 representative kinds, contexts rotated, must be accepted. Corner catalogue: 131 valid snippets, each checked against gcc at start. Non-trivial: the program "
     "uses >= 3 distinct grammar features beyond plain declarations; distinct by hash of the token text."
 )
 ASSUMPTIONS = [
@@ -125,6 +125,38 @@ def t2_shard(arg):
     return st
 
 
+def enum_expr_shard(arg):
+    """acceptance of every small expression tree of the C02 enumeration (valid C
+    by construction) in rotating contexts: catches rejections that need a
+    specific operator combination (sizeof + compound literal + postfix ...)"""
+    import itertools
+
+    from ..unitcheck import EXPR_CONTEXTS
+    from . import c02
+
+    kind_name, n = arg
+    st = Stats()
+    name, ar, mk = c02.first_kind_lookup(kind_name)
+    kinds = c02.KINDS if n <= 2 else [k for k in c02.KINDS if k[0] in c02.REDUCED]
+    idx = 0
+    for split in c02._splits(n - 1, ar):
+        for kids in itertools.product(*[list(c02.trees(k, kinds)) for k in split]):
+            e = mk(*kids)
+            ci = idx % len(EXPR_CONTEXTS)
+            idx += 1
+            tu = EXPR_CONTEXTS[ci][1](e)
+            src = unit_text(tu, "min")
+            st.evaluations += 1
+            out = parse_outcome(src, "f.c", ("f.c",))
+            if out[0] != "ast":
+                st.failures.append(dict(subcheck="tier2", case=("unit", tu, "min", 0), text=src, detail="expression derived from the C grammar rejected: %r" % (out[1:],), sig="rejected-grammar-valid"))
+                if len(st.failures) > 20:
+                    return st
+            else:
+                st.nontrivial += 1
+    return st
+
+
 def corner_shard(_):
     st = Stats()
     d = tempfile.mkdtemp(prefix="c01c_")
@@ -159,6 +191,9 @@ def run(ctx):
     if not gcc.have_gcc():
         raise HarnessError("gcc is required for C01")
     ctx.map(corner_shard, [0])
+    from . import c02
+
+    ctx.map(enum_expr_shard, [(k[0], 2) for k in c02.KINDS] + [(k[0], 3) for k in c02.KINDS if k[0] in c02.REDUCED])
     ctx.map(t1_shard, [(s, ctx.pick(25, 500)) for s in ctx.shard_seeds(16)])
     ctx.map(t2_shard, [(s, ctx.pick(400, 10000)) for s in ctx.shard_seeds(16, 7)])
 
